@@ -1032,7 +1032,11 @@ outer:
 					if v := p.val(fr, x.X); v.k == pList && p.listsAreSlicesOf != nil {
 						// a list standing for a slice of a known element type, asserted to another type: the panic of an
 						// unchecked assertion
-						if st, ok := x.AssertedType.Underlying().(*types.Slice); !ok || !types.Identical(st.Elem(), p.listsAreSlicesOf) {
+						elemT := p.listsAreSlicesOf.String()
+						if l := fr.heap.lists[v.i]; len(l) > 0 && l[0].k == pInt && l[0].s != "" {
+							elemT = l[0].s
+						}
+						if st, ok := x.AssertedType.Underlying().(*types.Slice); !ok || st.Elem().String() != elemT {
 							if _, isIface := x.AssertedType.Underlying().(*types.Interface); !isIface {
 								p.panicAt(fn, x, "interface conversion: the value is a []"+p.listsAreSlicesOf.String()+", not "+x.AssertedType.String())
 								return
@@ -1111,8 +1115,13 @@ outer:
 						}
 					}
 					if v.k == pList && p.listsAreSlicesOf != nil {
-						// a list standing for a slice of a known element type
-						if st, ok := x.AssertedType.Underlying().(*types.Slice); ok && types.Identical(st.Elem(), p.listsAreSlicesOf) {
+						// a list standing for a slice of a known element type (the elements' own type tags, when they
+						// carry one, say more than the walk's default)
+						elemT := p.listsAreSlicesOf.String()
+						if l := fr.heap.lists[v.i]; len(l) > 0 && l[0].k == pInt && l[0].s != "" {
+							elemT = l[0].s
+						}
+						if st, ok := x.AssertedType.Underlying().(*types.Slice); ok && st.Elem().String() == elemT {
 							fr.tuples[x] = []pval{v, {k: pBool, b: true}}
 						} else {
 							z, _ := zeroOf(x.AssertedType)
@@ -2685,6 +2694,38 @@ func (p *pinterp) call(fn *ssa.Function, fr *pframe, x *ssa.Call, depth int) {
 					}
 				}
 			}
+		case "Argmax":
+			// tensor.Argmax(t, axis): positions of the largest elements along the axis (integer content only)
+			if p.content && len(cc.Args) == 2 {
+				t, ax := p.val(fr, cc.Args[0]), p.val(fr, cc.Args[1])
+				if t.k == pShaped && t.m != 0 && ax.k == pInt && !fr.heap.lazyT[t.m] {
+					shl, cont := fr.heap.lists[t.j], fr.heap.lists[t.m]
+					shape := make([]int64, len(shl))
+					okS := shl != nil && cont != nil
+					for i, e := range shl {
+						if e.k != pInt {
+							okS = false
+						}
+						shape[i] = e.i
+					}
+					if okS && ax.i >= 0 && ax.i < int64(len(shape)) {
+						if vals, ok := reduceContent(shape, cont, map[int64]bool{ax.i: true}, false, "Argmax"); ok {
+							var osh []pval
+							for i, e := range shape {
+								if int64(i) != ax.i {
+									osh = append(osh, pval{k: pInt, i: e})
+								}
+							}
+							if osh == nil {
+								osh = []pval{}
+							}
+							fr.tuples[x] = []pval{{k: pShaped, i: t.i, j: fr.heap.alloc(osh).i, m: fr.heap.alloc(vals).i}, {k: pNil}}
+						}
+					} else if okS {
+						fr.tuples[x] = []pval{{k: pNil}, {k: pNonNil}}
+					}
+				}
+			}
 		case "Neg", "Exp", "Div":
 			// element-wise functions of the tensor library on named elements: Neg folds into the normal form, Exp and
 			// Div become opaque atoms; with UseUnsafe() the result is written into the (first) tensor operand
@@ -3393,7 +3434,94 @@ func (p *pinterp) reduction(fn *ssa.Function, x *ssa.Call, name string, fr *pfra
 	if out == nil {
 		out = []pval{}
 	}
-	return []pval{{k: pShaped, i: args[0].i, j: fr.heap.alloc(out).i}, {k: pNil}}, true
+	res := pval{k: pShaped, i: args[0].i, j: fr.heap.alloc(out).i}
+	if p.content && args[0].m != 0 && (name == "Max" || name == "Min") && !fr.heap.lazyT[args[0].m] {
+		if vals, ok := reduceContent(shape, fr.heap.lists[args[0].m], gone, len(axes) == 0, name); ok {
+			res.m = fr.heap.alloc(vals).i
+		}
+	}
+	return []pval{res, {k: pNil}}, true
+}
+
+// reduceContent: the elements of a Max / Min / Argmax reduction over the axes in gone (all axes when all is set), in
+// the row-major order of the reduced shape. Integer elements are reduced to the integer, named elements to an atom
+// that names the function and the set it ranges over; Argmax (one axis) yields the position of the largest integer.
+func reduceContent(shape []int64, cont []pval, gone map[int64]bool, all bool, name string) ([]pval, bool) {
+	total := int64(1)
+	for _, e := range shape {
+		total *= e
+	}
+	if cont == nil || int64(len(cont)) != total {
+		return nil, false
+	}
+	r := len(shape)
+	var keep []int
+	for d := 0; d < r; d++ {
+		if !all && !gone[int64(d)] {
+			keep = append(keep, d)
+		}
+	}
+	nOut := int64(1)
+	for _, d := range keep {
+		nOut *= shape[d]
+	}
+	groups := make([][]pval, nOut)
+	pos := make([][]int64, nOut) // position along the (single) reduced axis, for Argmax
+	co := make([]int64, r)
+	for f := int64(0); f < total; f++ {
+		rem := f
+		for d := r - 1; d >= 0; d-- {
+			co[d] = rem % shape[d]
+			rem /= shape[d]
+		}
+		o := int64(0)
+		for _, d := range keep {
+			o = o*shape[d] + co[d]
+		}
+		groups[o] = append(groups[o], cont[f])
+		along := int64(0)
+		for d := 0; d < r; d++ {
+			if all || gone[int64(d)] {
+				along = along*shape[d] + co[d]
+			}
+		}
+		pos[o] = append(pos[o], along)
+	}
+	out := make([]pval, nOut)
+	for o, g := range groups {
+		if len(g) == 0 {
+			return nil, false
+		}
+		allInt, allStr := true, true
+		for _, e := range g {
+			allInt = allInt && e.k == pInt
+			allStr = allStr && e.k == pStr
+		}
+		switch {
+		case allInt:
+			best, at := g[0], pos[o][0]
+			for q, e := range g[1:] {
+				if (name == "Min" && e.i < best.i) || (name != "Min" && e.i > best.i) {
+					best, at = e, pos[o][q+1]
+				}
+			}
+			if name == "Argmax" {
+				out[o] = pval{k: pInt, i: at, s: "int"}
+			} else {
+				out[o] = best
+			}
+		case allStr && name != "Argmax":
+			var ns []string
+			for _, e := range g {
+				ns = append(ns, e.s)
+			}
+			sort.Strings(ns)
+			out[o] = atomElem(name, pval{k: pStr, s: strings.Join(ns, ",")})
+		default:
+			return nil, false
+		}
+	}
+	return out, true
 }
 
 var headerWriters = map[string]bool{"Reshape": true, "SetShape": true, "T": true, "UT": true, "Transpose": true}
